@@ -38,7 +38,7 @@ Definition op_eqb (a b : op) : bool :=
   end.
 Definition out_eqb (a b : out) : bool :=
   match a, b with
-  | OOk, OOk | ONone, ONone | OErr, OErr | OPanic, OPanic | OFuel, OFuel => true
+  | OOk, OOk | ONone, ONone | OErr, OErr | OPanic, OPanic => true
   | OSome p, OSome q => p =? q
   | _, _ => false
   end.
@@ -59,13 +59,15 @@ Definition ops_of (tr : list ev) : list op := map (fun e => match e with E o _ _
 Definition model_agrees (c : case) : bool :=
   match c with Case np ctr => let tr := expand ctr in tr_eqb (run np (ops_of tr)) tr end.
 
-(* the observed behaviour satisfies the property (for a disciplined client; the property says
-   nothing about double frees or releasing page 0) *)
+(* the observed behaviour satisfies the full property -- every allocated page was released and
+   not handed out since, no legal call fails, free_count() = what the following allocations
+   return -- for a disciplined client (the property says nothing about double frees or
+   releasing page 0) *)
 Definition spec_ok (c : case) : bool :=
   match c with Case np ctr => property_ok np (expand ctr) end.
 
-Definition known_class (c : case) : Z :=
-  match c with Case np ctr => known_class_tr np (expand ctr) end.
+(* no recorded finding is open any more (F-C34-1 / F-C34-2 fixed by /repo bad45b6) *)
+Definition known_class (c : case) : Z := 0.
 
 Fixpoint failures_from (i : Z) (cs : list case) : list (Z * bool * bool * Z) :=
   match cs with
